@@ -2,7 +2,7 @@
 Line-protocol driver for the C12 model (observed / cached properties).
 
   case  :=  shape | nobjects | step ; step ; …
-  shape :=  expr cached variant static ra rv rp getter undef fail
+  shape :=  expr cached variant static ra rv rp getter undef fail [inherit]
             expr    paths joined by '+'; a path is letters joined by '.':
                     links i (inst) k (kids.items) b (byname.items);
                     leaf v (value) a (aux) I (inst) K (kids.items) B (byname.items) T (tags.items)
@@ -12,8 +12,13 @@ Line-protocol driver for the C12 model (observed / cached properties).
             rp      0|1  reader on root.value attached with the dynamic listeners (runs after the property's
                          observer; the generator keeps histories in which root.value only becomes a
                          dependency after `at` out of the comparison, see harness/props/c12.py rebuild())
-            getter  V (serialised view) | S (lossy sum)      undef 0|1 (S returns Undefined when sum % 5 = 3)
+            getter  V (serialised view) | S (lossy sum) | F (None / 0 / '' / [] / sum, by sum % 5)
+            undef   0|1 (S returns Undefined when sum % 5 = 3)
             fail    - | k:Exc   (the k-th getter call on an object raises Exc)
+            inherit - | bu | b2 | bc | rd  how the class hierarchy declares the property (base uncached / sub
+                    cached, the same over two levels, base cached / sub uncached, redeclared with another
+                    expression in the subclass); `expr` and `cached` are the EFFECTIVE ones, which is all the
+                    model needs: the field is ignored here
   step  :=  sv o f x | si o t | sk o [ids] | mk o op [ids] e | sb o {k:id,…} | mb o op {…} e
           | st o [ints] | mt o op [ints] e | rd | at | dt | cp kind | K w/w/…
   out   :=  per step:  read c<calls> x[nested] s[static notes] t[otc notes] o[observe notes]
@@ -84,7 +89,7 @@ structure Shape where
   ra : Bool
   rv : Bool
   rp : Bool
-  view : Bool
+  getter : String
   undef : Bool
   fail : Option (Nat × Exc)
 
@@ -94,18 +99,26 @@ def parseFail (s : String) : Option (Option (Nat × Exc)) :=
     | [k, e] => k.toNat?.map (fun k => some (k, Exc.ofName e))
     | _ => none
 
+def parseShape10 (e c v sl ra rv rp g u f : String) : Option Shape := do
+  let E ← parseExpr e
+  let legacy ← (match v with | "o" => some false | "l" => some true | _ => none)
+  let g ← (if g = "V" ∨ g = "S" ∨ g = "F" then some g else none)
+  pure { E := E, cached := ← bool? c, legacy := legacy, static := ← bool? sl, ra := ← bool? ra,
+         rv := ← bool? rv, rp := ← bool? rp, getter := g, undef := ← bool? u, fail := ← parseFail f }
+
 def parseShape (s : String) : Option Shape :=
   match words s with
-  | [e, c, v, sl, ra, rv, rp, g, u, f] => do
-    let E ← parseExpr e
-    let legacy ← (match v with | "o" => some false | "l" => some true | _ => none)
-    let view ← (match g with | "V" => some true | "S" => some false | _ => none)
-    pure { E := E, cached := ← bool? c, legacy := legacy, static := ← bool? sl, ra := ← bool? ra,
-           rv := ← bool? rv, rp := ← bool? rp, view := view, undef := ← bool? u, fail := ← parseFail f }
+  | [e, c, v, sl, ra, rv, rp, g, u, f] => parseShape10 e c v sl ra rv rp g u f
+  | [e, c, v, sl, ra, rv, rp, g, u, f, inh] =>
+    if inh = "-" ∨ inh = "bu" ∨ inh = "b2" ∨ inh = "bc" ∨ inh = "rd" then parseShape10 e c v sl ra rv rp g u f
+    else none
   | _ => none
 
 def mkEnv (sh : Shape) : Env String :=
-  let g : Heap → String := if sh.view then viewGetter sh.E 0 else sumGetter sh.E 0 sh.undef
+  let g : Heap → String :=
+    if sh.getter = "V" then viewGetter sh.E 0
+    else if sh.getter = "F" then falsyGetter sh.E 0
+    else sumGetter sh.E 0 sh.undef
   { E := sh.E, root := 0,
     G := fun n h => match sh.fail with
       | some (k, e) => if n = k then .error e else .ok (g h)
